@@ -164,9 +164,8 @@ pub fn run(cfg: &RunCfg) -> PartResult {
             total.merge(check_harness(&C14 { entry: entry.clone(), d, variant: Variant::Exact }, cfg));
             total.merge(check_harness(&C14 { entry: entry.clone(), d, variant: Variant::OneFewer }, cfg));
             if influence {
-                for i in 0..dim {
-                    total.merge(check_harness(&C14 { entry: entry.clone(), d, variant: Variant::Influence(i) }, cfg));
-                }
+                let batch: Vec<C14> = (0..dim).map(|i| C14 { entry: entry.clone(), d, variant: Variant::Influence(i) }).collect();
+                total.merge(check_harnesses(&batch, cfg));
             }
         }
     }
